@@ -44,11 +44,37 @@ def common_rules(ctx, w):
         ctx.ok("COMMON.interior", "crate", {"adts_scanned": len(w.facts.adts)})
 
 
+_ALT = {}
+
+
+def config_independence(ctx, w):
+    """Thorough tier: the facts the rules rely on (HIR, effect summaries) do not
+    depend on the build configuration (overflow checks / debug assertions off)."""
+    ctx.rule("COMMON.config", "HIR and may-effect summaries are identical with overflow checks and debug assertions disabled")
+    if "w2" not in _ALT:
+        try:
+            f2 = FX.extract(repo=w.facts.repo, overflow_checks="off")
+            _ALT["w2"] = WD.World(f2)
+        except FX.ExtractError as e:
+            _ALT["w2"] = e
+    w2 = _ALT["w2"]
+    if isinstance(w2, Exception):
+        ctx.violation("COMMON.config", "extract", "second extraction (overflow checks off) failed: %s" % w2)
+        return
+    same_hir = json.dumps(w.facts.data["hir"], sort_keys=True) == json.dumps(w2.facts.data["hir"], sort_keys=True)
+    ctx.check(same_hir, "COMMON.config", "hir", "the HIR differs between build configurations (cfg-dependent code?)", sample={"bodies": len(w.facts.hir)})
+    diff = [p for p in w.E.summaries if p in w2.E.summaries and (w.E.summaries[p].W != w2.E.summaries[p].W or w.E.summaries[p].R != w2.E.summaries[p].R)]
+    missing = sorted(set(w.E.summaries) ^ set(w2.E.summaries))
+    ctx.check(not diff and not missing, "COMMON.config", "effects", "effect summaries differ between build configurations for %s %s" % (diff[:3], missing[:3]), sample={"functions": len(w.E.summaries)})
+
+
 def run_property(prop, tier, w, seed):
     ctx = report.Ctx(prop, tier, w.facts, seed)
     try:
         mod = importlib.import_module("rules.%s" % prop.lower())
         common_rules(ctx, w)
+        if tier == "thorough":
+            config_independence(ctx, w)
         mod.run(ctx, w)
     except WD.AnchorError as e:
         ctx.violation("ANCHOR", "derive", "anchor derivation failed: %s" % e)
